@@ -103,9 +103,18 @@ class LineScheduler:
                 self._park(w, frame)
             return local
 
+        plain = tuple(f for f in files if "::" not in f)
+        scoped = [tuple(f.split("::", 1)) for f in files if "::" in f]  # "path::function": only that function's lines
+
         def glob(frame, event, arg):
-            if event == "call" and frame.f_code.co_filename.endswith(files):
+            if event != "call":
+                return None
+            fn = frame.f_code.co_filename
+            if plain and fn.endswith(plain):
                 return local
+            for path, func in scoped:
+                if fn.endswith(path) and frame.f_code.co_name == func:
+                    return local
             return None
 
         return glob
